@@ -49,6 +49,7 @@ def check_texts(ctx, texts, label, nontrivial=None):
                               {'text': t, 'impl': x})
         elif x[0] == 'err' and x[1][0] not in ('ManifestSyntaxError', 'ManifestUnsignedData'):
             ctx.violation('spec', f'exception {x[1]} escapes the loader', {'text': t, 'impl': x})
+    outside_clause(ctx, texts, im, label)
     res = run_model(reqs)
     signed_ok = 0
     for i, ok in zip(idx, res):
@@ -62,6 +63,45 @@ def check_texts(ctx, texts, label, nontrivial=None):
     e['accepted_as_signed'] = e.get('accepted_as_signed', 0) + signed_ok
     e['rejected'] = e.get('rejected', 0) + sum(1 for x in im if x[0] == 'err')
     return im
+
+
+def outside_clause(ctx, texts, im, label):
+    """'Non-blank content before or after the signed block is rejected as unsigned data, misplaced armor as a syntax error' judged on the
+    implementation alone, as the relation that C04_content_after_signed_block / C04_signed_block_after_content state for the model: when the
+    text up to and including the first END line is loaded as a signed Manifest, the first non-blank line after it decides the failure of the
+    whole text (unsigned data; syntax error if that line looks like armor); when the lines before the first BEGIN line load with at least one
+    entry, the whole text fails as unsigned data."""
+    n = 0
+    for t, x in zip(texts, im):
+        if BEGIN not in t:
+            continue
+        norm = t.replace('\r\n', '\n').replace('\r', '\n')
+        lines = norm.split('\n')
+        lines = [l + '\n' for l in lines[:-1]] + ([lines[-1]] if lines[-1] else [])
+        want = None
+        if END + '\n' in lines:
+            i = lines.index(END + '\n')
+            rest = [l for l in lines[i + 1:] if l.strip().split()]
+            if rest:
+                pre = impl.load(''.join(lines[:i + 1]), 1)
+                if pre[0] == 'ok' and pre[1][1]:
+                    l = rest[0]
+                    want = 'ManifestSyntaxError' if (l.startswith('-----') and l.rstrip().endswith('-----')) else 'ManifestUnsignedData'
+                    why = 'the text up to the END line loads as a signed Manifest and a non-blank line follows'
+        if want is None and BEGIN + '\n' in lines:
+            j = lines.index(BEGIN + '\n')
+            if j:
+                pre = impl.load(''.join(lines[:j]), 1)
+                if pre[0] == 'ok' and pre[1][0] and not pre[1][1]:
+                    want = 'ManifestUnsignedData'
+                    why = 'entries were read before the BEGIN-SIGNED line'
+        if want is None:
+            continue
+        n += 1
+        if not (x[0] == 'err' and x[1][0] == want):
+            ctx.violation('spec', f'{why}: the load must fail with {want}', {'text': t, 'impl': x, 'where': label})
+    e = ctx.cov['engines'].setdefault('text:' + label, {})
+    e['outside_clause_judged'] = e.get('outside_clause_judged', 0) + n
 
 
 def c04(ctx):
